@@ -526,3 +526,68 @@ def prefix_step(p: Int, e: Int):
     requires(p >= 0 and e >= 0)
     ensures(p // pow2(e) == 2 * (p // pow2(e + 1)) + (p // pow2(e)) % 2)
     div_div2(p, pow2(e))
+
+
+# ---------------------------------------------------------------------------------------------
+# the side facts (<f>__facts) proved as lemmas, with the fact itself switched off (nofacts)
+
+@lemma
+def fact_pow2(n: Int):
+    nofacts("pow2")
+    ensures(pow2(n) >= 1 and implies(n >= 1, pow2(n) >= 2) and implies(n >= 8, pow2(n) >= 256) and implies(n >= 0, pow2(n) > n))
+    decreases(n)
+    if n > 0:
+        fact_pow2(n - 1)
+        if n >= 8:
+            fact_pow2(n - 8)
+            pow2(n - 2)
+            pow2(n - 3)
+            pow2(n - 4)
+            pow2(n - 5)
+            pow2(n - 6)
+            pow2(n - 7)
+
+
+@lemma
+def fact_blen(x: Int):
+    nofacts("blen")
+    ensures(blen(x) >= 0 and implies(x > 0, blen(x) >= 1) and implies(x <= 0, blen(x) == 0))
+    decreases(x)
+    if x > 0:
+        fact_blen(x // 2)
+
+
+@lemma
+def fact_rev(s: IntList):
+    nofacts("rev")
+    ensures(len(rev(s)) == len(s))
+    decreases(len(s))
+    if len(s) > 0:
+        fact_rev(s[1:])
+
+
+@lemma
+def fact_be_bytes(x: Int, k: Int):
+    nofacts("be_bytes")
+    ensures(implies(k >= 0, len(be_bytes(x, k)) == k) and implies(k < 0, len(be_bytes(x, k)) == 0))
+    decreases(k)
+    if k > 0:
+        fact_be_bytes(x // 256, k - 1)
+
+
+@lemma
+def fact_seq_repeat(s: IntList, n: Int):
+    nofacts("seq_repeat")
+    ensures(implies(n >= 0, len(seq_repeat(s, n)) == n * len(s)) and implies(n < 0, len(seq_repeat(s, n)) == 0))
+    decreases(n)
+    if n > 0:
+        fact_seq_repeat(s, n - 1)
+
+
+@lemma
+def fact_bits_val(s: Str):
+    nofacts("bits_val")
+    ensures(bits_val(s) >= 0)
+    decreases(len(s))
+    if len(s) > 0:
+        fact_bits_val(s[:len(s) - 1])
